@@ -221,6 +221,19 @@ def alloc_programs():
             "memref<?x4xi32>",
         ),
     }
+    # a size that is itself a dim of the argument: every (inner dim index, subview dimension) pair, with / without another user of the inner dim
+    for mi in (0, 1):
+        for k in (0, 1):
+            for extra in (0, 1):
+                svt = "memref<?x3xi32, strided<[?, 1], offset: ?>>" if k == 0 else "memref<1x?xi32, strided<[?, 1], offset: ?>>"
+                szs = "[%dm, 3]" if k == 0 else "[1, %dm]"
+                allocs[f"subview_of_dim_{mi}{k}{extra}"] = (
+                    f"%dm = memref.dim %m, %c{mi} : memref<?x?xi32>\n"
+                    f"    %sv = memref.subview %m[%i, 0] {szs} [1, 1] : memref<?x?xi32> to {svt}\n"
+                    f"    %d = memref.dim %sv, %c{k} : {svt}\n    %a = memref.alloc(%d) : memref<?x4xi32>"
+                    + ('\n    "test.op"(%dm) {verif.id = 8 : i32} : (index) -> ()' if extra else ""),
+                    "memref<?x4xi32>",
+                )
     loops = {
         "single": ("  scf.for %i = %c0 to %c3 step %c1 {\n    {A}\n    {U}\n  }\n", 1),
         "single_dynub": ("  scf.for %i = %c0 to %n step %c1 {\n    {A}\n    {U}\n  }\n", 1),
